@@ -43,10 +43,13 @@ def _run(prog, pid):
             calls = [b for b in lp.body if f.term(b)["k"] == "call" and (callee_name(f.term(b)) or "").split("::")[-1] == callee]
             if ty:
                 any_driver.append((lp, ty, calls))
-            if tysub not in ty:
+            # `for x in opt_list.into_iter().flatten()`: flattening an Option of the list yields the whole list (or nothing when
+            # there is no list) - the same elements as `if let Some(l) = opt_list { for x in l.iter() }`
+            whole_opt = "Flatten<core::option::IntoIter<" in ty and tysub.split("<")[-1].rstrip(">").split(", ", 1)[-1] in ty
+            if tysub not in ty and not whole_opt:
                 continue
             found += 1
-            bad = [c.rstrip("<") for c in CHANGING if c in ty]
+            bad = [c.rstrip("<") for c in CHANGING if c in ty and not (whole_opt and c == "Flatten<")]
             skips = _skips(f, lp, calls, excuse=_already_done_test(f, lp, callee))
             ok = not bad and not skips
             key = "%s/%s%s" % (short, callee, "#%d" % (found - 1) if found > 1 else "")
